@@ -46,6 +46,12 @@ def _cases(fam, prec, part, tier):
                 if step % b:
                     for n in range(11, 25 if tier == 'thorough' else 20):
                         out.append({'fam': fam, 'prec': prec, 'runs': [n], 'step': step, 'bs': bs})
+        # many computation points on one attack object (growth of the stacked array): 17..20 and 33..35 columns
+        for n in ((17, 20) if tier == 'quick' else (17, 18, 20, 33, 35)):
+            for bs in (1, 4):
+                out.append({'fam': fam, 'prec': prec, 'runs': [n], 'step': 1, 'bs': bs})
+        out.append({'fam': fam, 'prec': prec, 'runs': [9, 9], 'step': 1, 'bs': 2})
+        out.append({'fam': fam, 'prec': prec, 'runs': [16, 18], 'step': 2, 'bs': 2})
     else:
         for a in (1, 2, 3, 5):
             for b in (1, 2, 4, 6):
